@@ -46,6 +46,7 @@ func c03Conds() []nodeFn {
 		func() *rt.Node { return rt.Un("!", Id("x")) },
 		func() *rt.Node { return rt.Call("len", S("")) },
 		func() *rt.Node { return rt.Float(-0.0) },
+		func() *rt.Node { return rt.Float(1e-20) }, func() *rt.Node { return rt.Float(-3e-300) }, func() *rt.Node { return rt.Float(5e-324) }, // truthy: only 0 is false
 	}
 }
 
@@ -385,7 +386,7 @@ func c03Enum() *senum {
 		forInits: []nodeFn{nil, func() *rt.Node { return rt.Assign("=", Id("y"), I(0)) }},
 		forConds: []nodeFn{nil, func() *rt.Node { return rt.Bin("<", Id("x"), I(2)) }},
 		forSteps: []nodeFn{nil, func() *rt.Node { return inc("x") }, func() *rt.Node { return rt.Assign("=", Id("z"), Id("x")) }, // first assigns a name in the post clause
-			func() *rt.Node { return rt.Assign("=", Id("x"), rt.Bin("+", rt.Bin("+", Id("x"), I(1)), rt.Call("len", rt.List(Id("y"))))) }}, // mentions y, which a body may assign: the body's names are gone when the post clause runs
+			func() *rt.Node { return rt.Assign("=", Id("zy"), Id("y")) }}, // copies y, which a body may assign: the body's names are gone when the post clause runs
 		forIns: []func(body *rt.Node) *rt.Node{
 			func(b *rt.Node) *rt.Node { return rt.ForIn("y", rt.List(I(1), I(2)), b) },
 			func(b *rt.Node) *rt.Node { return rt.ForIn("x", rt.Str("ab"), b) },
@@ -425,7 +426,7 @@ func c03Structural(w *run.Worker) {
 			}
 			stmts := []*rt.Node{rt.Assign("=", Id("x"), I(0))}
 			stmts = append(stmts, asNodes(fam.At(i))...)
-			stmts = append(stmts, rt.Call("p", Id("x"), Id("y"), Id("pk"), Id("z"), Id("n0")))
+			stmts = append(stmts, rt.Call("p", Id("x"), Id("y"), Id("pk"), Id("z"), Id("n0"), Id("zy")))
 			c03Exec(w, "structure", stmts)
 		}
 	}
@@ -464,7 +465,7 @@ func init() {
 	run.Register(&run.Check{
 		ID:    "C03",
 		Level: "model_checking",
-		Rule: "(A) every ordered pair of 26 condition representatives (all truthiness classes; literals, variables, point keys, a tag, an absent name) in if/elif/else, and each as for-condition; " +
+		Rule: "(A) every ordered pair of 29 condition representatives (incl. floats of magnitude 1e-20, 3e-300 and the smallest denormal: truthy) (all truthiness classes; literals, variables, point keys, a tag, an absent name) in if/elif/else, and each as for-condition; " +
 			"(B) 17 iterables (lists, strings incl. multi-byte, 0/1/2-key maps, point values, non-iterables) x 4 loop-variable names (new, an outer variable, `_`, a point key) x 11 bodies (continue, break, nested loop, shadowing, mutation during iteration, body-locals read before assignment); " +
 			"(C) every program of total size <=3 statements (thorough: also size 4 over 6 of the simple statements and 12 of the for shapes), nesting <=3, over {probe(x,y), probe(pk,_), x=x+1, y=7, x+=10, pk=x, pk=nil, n0+=5 (a name that is only a point key), x=x/n0 (a run-time error while n0 is 0), break, continue} x if / if-else / if-elif-else x the 16 three-clause for shapes (init absent|y=0, condition absent|x<2, post absent|x=x+1|z=x|a post clause reading y) x 3 for-in forms, final probe of x, y, pk, z, n0; " +
 			"ordered probe trace + final point compared with the reference interpreter; map iteration order is tried in both orders; after EVERY program a name-reading canary script (loaded once) runs with no load in between and must see only the point's keys and nil",
